@@ -7,33 +7,48 @@ SOURCES = ["src/allmydata/mutable/checker.py", "src/allmydata/mutable/repairer.p
            "src/allmydata/mutable/servermap.py", "src/allmydata/mutable/publish.py"]
 DESIGN_REF = "DESIGN.md §2 C14"
 TECHNIQUE = ("Lean 4 theorems over executable models of MutableChecker._make_checker_results/_count_shares/"
-             "_got_mapupdate_results and Repairer._got_full_servermap on top of the ServerMap model (C11); differential "
-             "correspondence (a) of seeded servermaps through the real MutableChecker methods, (b) through the real "
-             "Repairer._got_full_servermap (±force, ±writekey), (c) of the servermaps, check results and repair outcomes "
-             "of grid scenarios with missing / corrupted / stale / competing shares, ±verify, ±force; implementation-side "
-             "monitor from the statement against the share files on disk")
-LEVEL_TEXT = ("healthy <-> exactly one version located, it has >= k and >= N distinct share numbers; repair without force "
-              "raises MustForceRepairError when an unrecoverable version newer than every recoverable one is visible or "
-              "two recoverable versions share a seqnum; when repair proceeds it republishes the best recoverable version "
-              "under a seqnum above everything in the map: proved in Lean for all servermaps. Tied to checker.py / "
-              "repairer.py at function level and on grid scenarios.")
-LEVEL_NOTE = ("Lean kernel + standard axioms; hand-transcribed decision functions tied by correspondence; that a successful "
-              "republish leaves N distinct shares recoverable is the composition with C47 and C11 (monitored on the grid, "
-              "not re-proved here); share verification (hash chains) is C10's subject and only exercised")
-RULE = ("(a)/(b) seeded servermaps as in C11 — one case per servermap and per (force, writekey) combination, non-trivial = "
-        ">= 2 versions present; (c) grid scenarios: k 1..3, N <= 8, 2..10 servers, SDMF and MDMF, a history of 1..4 "
-        "versions, then damage (delete shares, copy back stale shares of an older version, recreate a competing version "
-        "with an equal seqnum, flip a byte in a share's block data or in its signed prefix, servers down), then check "
-        "(verify or not), then repair (force or not) and a final check + download — one case per check and per repair")
-TRUSTED = ["lean/Tahoe/Mutable/CheckRepair.lean is a hand transcription of the checker/repairer decision logic",
-           "harness/grid.py; ground truth = share files on the servers that are up, read through "
+             "_got_mapupdate_results (incl. the verifier's mark_bad_share calls), Repairer._got_full_servermap and "
+             "MutableFileNode._get_version_from_servermap on top of the ServerMap model (C11); differential correspondence "
+             "of seeded servermaps through the real MutableChecker methods, the real Repairer._got_full_servermap (±force, "
+             "±writekey) and the real _get_version_from_servermap; grid scenario families (damage, grids shaped by servers "
+             "going offline, the grid changing between check and repair, damaged key fields, a corrupt and an intact share "
+             "on one server), a fixed corpus first; implementation-side monitors from the statement against the share "
+             "files on disk")
+LEVEL_TEXT = ("Proved in Lean for all servermaps: healthy_iff and healthy_with_verify_iff (healthy <-> among the shares the "
+              "verifier did not mark bad exactly one version, with >= k and >= N distinct share numbers), "
+              "repair_refuses_newer_unrecoverable, repair_refuses_merge, repair_republishes_best (best version, seqnum above "
+              "the whole map), download_version_exact and repair_uploads_best_or_nothing (what is downloaded is the chosen "
+              "version or the repair fails). Tied to checker.py / repairer.py / filenode.py at function level and on grid "
+              "scenarios.")
+LEVEL_NOTE = ("Lean kernel + standard axioms; hand-transcribed decision functions tied by correspondence; that a republish in "
+              "which no request fails stores all N share numbers is C47's fault_free_publish_stores_all; WHICH shares the "
+              "verifier marks bad is C10's hash checking plus the field checks repaired in /repo (93bab9f encrypted private "
+              "key, 5d94ff9 verification key) — monitored on the grid, not proved; byte-level equality of download and "
+              "upload is monitored only")
+RULE = ("fixed corpus first (VERIF_CORPUS_ONLY=1 runs only it), one scenario per seeded change / repaired defect; then "
+        "(a)/(b) seeded servermaps as in C11 through check, check after verifier marks, repair (every force/writekey "
+        "combination) and get-version — non-trivial = >= 2 versions present; (c) grid scenarios: k 1..3, N <= 8, 2..10 "
+        "servers, SDMF and MDMF, 1..4 versions, then damage (deleted shares, stale shares, a competing version with an "
+        "equal seqnum, a flipped byte in block data / block-hash-tree root / signed prefix, servers down), check (±verify), "
+        "repair (±force), final check + download; (d) versions written while stretches of the permuted server list are "
+        "offline (stale head), then check / repair / check_and_repair and download_version of every version; (e) check, "
+        "then a server leaves / a share disappears / the server returns, then repair (for check_and_repair at the boundary "
+        "of its halves); (f) a flipped byte in one share's encrypted private key or verification key, check(verify) and "
+        "check_and_repair(verify); (g) several shares per server, the only share of the newest version next to a share "
+        "with an invalid signature, both listing orders — one case per check and per repair")
+TRUSTED = ["lean/Tahoe/Mutable/CheckRepair.lean is a hand transcription of the checker/repairer/get-version decision logic",
+           "harness/grid.py; ground truth = share files on the servers that are present, read through "
            "allmydata.storage.mutable.MutableShareFile and the layout header structs"]
 ASSUMPTIONS = ["health is judged against the servers that answer (MODE_CHECK asks every server); shares on servers that "
                "are down are invisible to the checker and to the monitor alike",
                "without verify a share whose block data is damaged but whose header is intact counts as a share of its "
                "version (the checker does not read it): where this makes the difference the monitor accepts both answers",
                "list(unrecoverable)[0] in _make_checker_results is an arbitrary set element: the counters of a file with "
-               "no recoverable version and several unrecoverable ones are not compared"]
+               "no recoverable version and several unrecoverable ones are not compared",
+               "a server that fails DURING the repair's own publish is outside the statement's quantifier (Publish does not "
+               "re-place the share of a failed request: such a repair succeeds with N-1 shares); observed, not flagged",
+               "with two damaged shares the verifier lists only the first it meets (health is still False): observed, not "
+               "demanded by the statement"]
 
 import json
 import os
